@@ -242,7 +242,9 @@ def run(run, tier, replay_path):
         run.add_traces(s["cases"])
         run.note("soak_recycles_per_pool_kind", k)
 
-        # 5. negative controls
+        # 5. negative controls (pointless once violations were found: they would only mask them with a tool error)
+        if run.violations:
+            return
         # (a) binding: corrupt one expected slot table per program, every program must be flagged
         ring2 = [p for (c, (p, n)) in files if c == ("ring", 2, "pipe")][0]
         bad = os.path.join(tmp, "neg.jsonl")
